@@ -1,4 +1,7 @@
 import Crusta.Proofs.Iso
+import Crusta.Proofs.Maximal
+import Crusta.Proofs.SolveIDAux
+import Crusta.Proofs.Assemble
 
 /-!
 # C11 — statuses are invariant under presentation and mutually consistent (property theorems)
@@ -57,5 +60,33 @@ example : ∃ ρ : Renaming 3, ρ.f 0 = 2 :=
     by intro a; by_cases h0 : a = 0 <;> by_cases h2 : a = 2 <;> simp_all,
     by intro a; by_cases h0 : a = 0 <;> by_cases h2 : a = 2 <;> simp_all,
     by intro a; by_cases h0 : a = 0 <;> by_cases h2 : a = 2 <;> simp_all <;> omega⟩, rfl⟩
+
+/-- **credulous acceptance coincides for CO and PR**: an argument in some complete extension is in
+some preferred extension (every admissible set lies in a preferred one), and conversely -/
+theorem dc_co_iff_dc_pr {af : AF} {a : Nat} :
+    (∃ S, Complete af S ∧ S a = true) ↔ (∃ S, Preferred af S ∧ S a = true) := by
+  constructor
+  · rintro ⟨S, hS, ha⟩
+    obtain ⟨P, hP, hsub⟩ := exists_preferred_superset hS.1
+    exact ⟨P, hP, hsub a ha⟩
+  · rintro ⟨S, hS, ha⟩
+    exact ⟨S, preferred_complete hS, ha⟩
+
+/-- **GR ⊆ ID**: the grounded extension lies inside the ideal extension (which is complete) -/
+theorem gr_within_id {af : AF} {G I : ASet} (hG : Grounded af G) (hI : Ideal af I) : SubsetS G I :=
+  hG.2 I (ideal_complete hI)
+
+/-- the ideal extension is unique; a preferred extension always exists -/
+theorem id_unique_pr_exists (af : AF) :
+    (∀ S T, Ideal af S → Ideal af T → ∀ a, S a = T a) ∧ (∃ P, Preferred af P) :=
+  ⟨fun _ _ hS hT => ideal_unique hS hT, exists_preferred af⟩
+
+/-- **locality (disjoint unions)**: when the live arguments are partitioned into parts that no
+attack leaves or enters, the extensions of the whole graph — for each of the seven semantics — are
+exactly the sets whose trace on every part is an extension of that part: adding an unrelated
+component changes nothing inside the others -/
+theorem locality {g : G} {parts : List (Nat → Bool)} (hp : Parts g parts)
+    (hfin : ∃ n, ∀ a, g.live a = true → a < n) (σ : Sem) (S : ASet) (hS : ∀ a, S a = true → g.live a = true) :
+    g.Ext σ S ↔ ∀ U ∈ parts, (g.restrict U).Ext σ (inter S U) := ext_parts hp hfin σ S hS
 
 end Crusta.C11
